@@ -19,32 +19,63 @@ _QUICK_FLOORS = {
     "cmp.exact.inner_product": 15000, "cmp.grid.inner_product": 15000, "cmp.exact.bilinear": 3000, "cmp.grid.bilinear": 3000,
     "op.average_as_operand": 750,
     "_distinct_nontrivial": 7500,
+    # input classes added after the audit of the quantifier (each floor ~ half of what seed 1 measures)
+    "diag.far_origin.exact": 1100, "diag.far_origin.grid": 1300,            # diagrams translated by +-1e3, +-1e5, 1e7 (metric configs)
+    "op.difference_as_operand.exact": 350, "op.difference_as_operand": 350, # a*L0 - L1 as an operand of the metric checks (exact / grid)
+    "op.average.aliased.exact": 1500, "op.average.aliased.grid": 1500, "cmp.grid.average.x_range": 1500,
+    "op.compound.self.exact": 3000, "op.compound.self.grid": 3000,          # T += T, T -= T
+    "cmp.exact.find_max": 16000, "edge.find_max.size": 100, "edge.vectorize.size": 100,
+    "edge.find_max.beyond_size": 300, "edge.vectorize.beyond_size": 300, "edge.landscape_without_levels": 50,
+    "grid.decimal": 650,                                                      # grids with dx = 0.1, 0.01, 0.3
+    "cmp.grid.maximum": 2300, "cmp.grid.find_max": 20000, "op.find_max.zero_level": 9000, "cmp.grid.y_range": 2300,
+    "state.zero_function": 55, "cmp.grid.distance_friend_function": 16000,
+    "cmp.grid.value.default_constructed_at_0": 20,
+    "diag.large.exact": 110, "diag.large.grid": 60,                          # 20-80 / 20-48 intervals
 }
 
 SPEC = {
     "property": "C18",
-    "rule": "each case draws 1 (values configs) or 3 (algebra / metric configs) diagrams of 0-12 intervals (thorough: up to 20) in integer "
+    "rule": "each case draws 1 (values configs) or 3 (algebra / metric configs) diagrams of 0-12 intervals (thorough: up to 20; values "
+            "configs: 1 case in 25 / 40 has 20-80 / 20-48 intervals) in integer "
             "units, with six generator styles that force repeated, nested, equal-birth, equal-death, touching and zero-length intervals, and "
             "maps them to dyadic coordinates (1 exact case in 5: non-representable decimals such as 0.3+0.1j; gridded: endpoints on grid "
-            "points of a dyadic grid of 16-64 cells, all of one parity, or of mixed parity in config grid_values). Persistence_landscape and "
+            "points of a dyadic grid of 16-128 cells, all of one parity, or of mixed parity in config grid_values; 1 grid_values case in 4 "
+            "uses a decimal grid with dx = 0.1, 0.01 or 0.3 whose grid_min, grid_max and endpoints are the doubles nearest to the decimal "
+            "numbers, as strtod returns them). Persistence_landscape and "
             "Persistence_landscape_on_grid built from them are compared with the definition lambda_k(t) = (k+1)-th largest of "
             "max(0,min(t-b,d-t)) (harness/c18_landscapes/landscape_def.h): every level 0..m+1 at every candidate breakpoint "
             "{b, d, (d_i+b_j)/2}, every midpoint between consecutive breakpoints, every zero crossing and points outside the support "
-            "(exact form), at every grid point and at 1/4, 1/2, 3/4 of every cell (gridded form); the results of + - * (both orders) "
-            "+= -= *= /= abs new_abs compute_average at the same points against the pointwise operation on the definition; all overloads "
-            "of compute_integral_of_landscape, project_to_R, vectorize, compute_maximum, the limited-levels constructors; distance "
-            "(p = 1, 2, max(), infinity), compute_norm_of_landscape and compute_scalar_product against exact piecewise closed-form "
+            "(exact form; a random sample of 300 of these points for the large diagrams), at every grid point and at 1/4, 1/2, 3/4 of every "
+            "cell (gridded form); the results of + - * (both orders) "
+            "+= -= *= /= (also T += T and T -= T) abs new_abs compute_average (also with the destination among the operands) at the same "
+            "points against the pointwise operation on the definition; all overloads "
+            "of compute_integral_of_landscape, project_to_R, vectorize, compute_maximum, find_max (exact: every k in 0..size()+1, config "
+            "exact_edge; grid: 0..m+1), get_y_range (grid), the limited-levels constructors; distance "
+            "(p = 1, 2, max(), infinity), the friend compute_distance_of_landscapes_on_grid with p = max(), compute_norm_of_landscape and "
+            "compute_scalar_product against exact piecewise closed-form "
             "integrals on the merged breakpoints, plus d(f,f)=0, symmetry, the triangle inequality on all 27 ordered triples, symmetry "
-            "and bilinearity (both arguments) of the inner product. non-trivial = case (distinct by hash of its logged history) whose "
+            "and bilinearity (both arguments) of the inner product; in both metric configs the third operand is, 1 case in 4 each, an average "
+            "or a difference a*L0 - L1 (negative values, also on levels the other operand does not have), and 1 case in 3 the library gets "
+            "the diagrams (and the grid) translated by +-1e3, +-1e5 or 1e7 while the oracle integrates the untranslated ones. "
+            "non-trivial = case (distinct by hash of its logged history) whose "
             "(first two) diagram(s) have >= 3 intervals and at least one pair of overlapping intervals, and that passed every comparison",
     "assumptions": [
         "convention followed (documented in Persistence_representations_doc.h and used by both classes): f_(b,d)(t)=max(0,min(t-b,d-t)) "
         "without division by 2; levels are 0-based in the API (level 0 = lambda_1); grid constructor (p, min, max, N) has N+1 points of "
         "spacing (max-min)/N",
-        "intervals satisfy b <= d, are finite, and (gridded form) lie inside [grid_min, grid_max] with endpoints on grid points",
-        "number_of_levels arguments are >= 1; compute_average gets >= 1 landscape; vectorize(k) is only called for k < size() (exact) / "
-        "k < number of grid points (grid): the off-by-one at k == size() in Persistence_landscape::vectorize and find_max is outside "
-        "the documented domain and is not exercised",
+        "intervals satisfy b <= d, are finite with |coordinate| < 2e7 (far below the +-INT_MAX sentinels of the exact form), and "
+        "(gridded form) lie inside [grid_min, grid_max] with endpoints on grid points (exactly on dyadic grids, up to half an ulp on the "
+        "decimal grids); intervals reaching outside the grid and endpoints between grid points are NOT exercised",
+        "number_of_levels arguments are >= 1; compute_average gets >= 1 landscape (compute_average({}) is not exercised); a level "
+        "k >= size() is the zero function (as compute_value_at_a_given_point and the integrals treat it): find_max(k) = 0 and "
+        "vectorize(k) is empty or all zeros; grid vectorize(k) is only called for k < number of grid points (it documents a throw beyond)",
+        "suprema of the gridded form (compute_maximum, find_max, get_y_range) are judged only for landscapes of same-parity diagrams "
+        "(where both readings of 'maximum of the landscape', level 0 or all levels, agree and every supremum is attained on a grid "
+        "point); for differences only the friend L^infinity distance is judged",
+        "algebra and metric configs of the gridded form use dyadic grids only (decimal grids: config grid_values); translations far "
+        "from the origin are applied to dyadic coordinates only, where they are exact, and only in the metric configs",
+        "the default-constructed Persistence_landscape_on_grid (no grid point) is taken to be the zero landscape, as the comment in "
+        "compute_average calls it (config grid_edge)",
         "gridded L^1 / L^2 distances are compared with the exact integrals only for pairs whose levels do not cross strictly between "
         "neighbouring grid points (the header documents the inaccuracy for crossing pairs); metric laws are checked for all pairs",
         "tolerances: 1e-9 (values) and 1e-7 (integrals, distances, inner products), relative to max(1,|expected|): the library "
@@ -55,11 +86,13 @@ SPEC = {
         {"name": "exact", "src": ["c18_exact.cpp"], "variant": "asan",
          "configs": {"exact_values": {"quick": 6000, "thorough": 300000},
                      "exact_algebra": {"quick": 3000, "thorough": 150000},
-                     "exact_metric": {"quick": 3000, "thorough": 150000}}, "chunk": 25},
+                     "exact_metric": {"quick": 3000, "thorough": 150000},
+                     "exact_edge": {"quick": 600, "thorough": 30000}}, "chunk": 25},
         {"name": "grid", "src": ["c18_grid.cpp"], "variant": "asan",
          "configs": {"grid_values": {"quick": 6000, "thorough": 300000},
                      "grid_algebra": {"quick": 3000, "thorough": 150000},
-                     "grid_metric": {"quick": 3000, "thorough": 150000}}, "chunk": 25},
+                     "grid_metric": {"quick": 3000, "thorough": 150000},
+                     "grid_edge": {"quick": 24, "thorough": 1200}}, "chunk": 25},
     ],
     "floors": {"quick": _QUICK_FLOORS,
                "thorough": {k: v * 45 for k, v in _QUICK_FLOORS.items()}},
@@ -71,12 +104,16 @@ SPEC = {
                 "independent restatement of the definition: all levels at every breakpoint, between breakpoints, at and between "
                 "grid points; sums, differences, scalar multiples, absolute values and averages pointwise; every integral overload, "
                 "L^1/L^2/sup distances, norms and inner products against exact closed-form integrals on merged breakpoints; "
-                "symmetry, d(f,f)=0, triangle inequality and bilinearity directly. Held-on-what-was-observed, not a proof; "
+                "symmetry, d(f,f)=0, triangle inequality and bilinearity directly. Operands include averages, differences with "
+                "negative levels, objects aliased with the destination (T += T, X.compute_average({&X, ...})), diagrams translated up "
+                "to 1e7 away from the origin, decimal (non-dyadic) grids, 20-80 intervals, level numbers at and beyond size() and "
+                "landscapes without any level. Held-on-what-was-observed, not a proof; "
                 "adequate because the functions are piecewise linear with breakpoints in a finite set that is swept completely "
                 "for each case, and ten seeded single-site mutations of the anchored code were all detected by the quick tier.",
         "note": "trusted: landscape_def.h oracle (k-th largest tent value, closed-form integrals of linear pieces), libstdc++; "
                 "documented conventions followed (no division by 2, 0-based levels); gridded form only for grid-aligned diagrams "
-                "inside the grid; gridded L^p distance compared exactly only where levels do not cross between grid points",
+                "inside the grid (intervals reaching outside the grid, |coordinates| >= INT_MAX and compute_average({}) are not "
+                "exercised); gridded L^p distance compared exactly only where levels do not cross between grid points",
         "technique": "runtime monitoring: randomized inputs + definition oracle on all breakpoints / grid points, algebraic and metric "
                      "law checks, under AddressSanitizer/UBSan",
     },
